@@ -232,27 +232,59 @@ def rule_select(prog: Program) -> RuleResult:
     _emission_protocol(r, y, "ExceptIf.yield_and_update_conclusion")
     alt = prog.cls("conclusion_selector.Alternative")
     g = prog.method(alt.qual, "_evaluate__", inherited=False)
-    ifs = sorted([s for s in walk_local(g.node) if isinstance(s, ast.If) and "_is_false_" in src(s.test)], key=lambda s: s.lineno)
-    ok = False
-    if ifs:
-        top = ifs[0]
-        ok = src(top.test) == "not self.left._is_false_" and "self.left._conclusion_" in src(top.body[0]) and len(top.orelse) == 1 and isinstance(top.orelse[0], ast.If) and \
-            src(top.orelse[0].test) == "not self.right._is_false_" and "self.right._conclusion_" in src(top.orelse[0].body[0])
-    r.check(ok, "Alternative._evaluate__#first-true-branch", site(g), src(ifs[0].test) if ifs else "", "left conclusions if left fired, else right conclusions if right fired",
-            "the alternative does not select the conclusions of the first branch that fired")
+    table = _selection_table(prog, g)
+    bad = None
+    for val, picked in table:
+        for lf in ([val[("truth", "self.left._is_false_")]] if ("truth", "self.left._is_false_") in val else [False, True]):
+            for rf in ([val[("truth", "self.right._is_false_")]] if ("truth", "self.right._is_false_") in val else [False, True]):
+                want = ["left"] if not lf else (["right"] if not rf else [])
+                if picked != want:
+                    bad = bad or f"left false={lf}, right false={rf}: selects {picked or 'nothing'}, should select {want or 'nothing'}"
+    other = sorted({a for val, _ in table for a in val if a not in (("truth", "self.left._is_false_"), ("truth", "self.right._is_false_"))})
+    r.check(bad is None and bool(table) and not other, "Alternative._evaluate__#first-true-branch", site(g), f"{len(table)} paths", "left conclusions if left fired, else right conclusions if right fired (decision table)",
+            f"the alternative does not select the conclusions of the first branch that fired: {bad or ('the selection depends on ' + str(other))}")
     _emission_protocol(r, g, "Alternative._evaluate__")
     r.check(any(is_super_call(c, "_evaluate__") for c in calls_in(g.node)) and prog.lookup_super(alt.qual, alt.qual, "_evaluate__").cls.name == "ElseIf",
             "Alternative._evaluate__#else-if-base", site(g), "", "results come from the else-if evaluation (right only when left is false)", "the alternative is not evaluated with else-if semantics")
     nx = prog.cls("conclusion_selector.Next")
     h = prog.method(nx.qual, "_evaluate__", inherited=False)
-    ifs = [s for s in walk_local(h.node) if isinstance(s, ast.If)]
-    pairs = {(src(i.test), "left" if "self.left._conclusion_" in src(i.body[0]) else ("right" if "self.right._conclusion_" in src(i.body[0]) else "?")) for i in ifs}
-    ok = len(ifs) == 2 and pairs == {("self.left_evaluated", "left"), ("self.right_evaluated", "right")} and not any(i.orelse for i in ifs)
-    r.check(ok, "Next._evaluate__#both-branches", site(h), "", "conclusions of whichever side produced the result, independently", "the also-if selector does not select left and right conclusions independently")
+    table = _selection_table(prog, h)
+    bad = None
+    for val, picked in table:
+        for le in ([val[("truth", "self.left_evaluated")]] if ("truth", "self.left_evaluated") in val else [False, True]):
+            for re_ in ([val[("truth", "self.right_evaluated")]] if ("truth", "self.right_evaluated") in val else [False, True]):
+                want = (["left"] if le else []) + (["right"] if re_ else [])
+                if sorted(picked) != want:
+                    bad = bad or f"left evaluated={le}, right evaluated={re_}: selects {picked or 'nothing'}, should select {want or 'nothing'}"
+    other = sorted({a for val, _ in table for a in val if a not in (("truth", "self.left_evaluated"), ("truth", "self.right_evaluated"))})
+    r.check(bad is None and bool(table) and not other, "Next._evaluate__#both-branches", site(h), f"{len(table)} paths", "conclusions of whichever side produced the result, independently (decision table)",
+            f"the also-if selector does not select left and right conclusions independently: {bad or ('the selection depends on ' + str(other))}")
     _emission_protocol(r, h, "Next._evaluate__")
     _dedup_key(prog, r)
     r.check(prog.lookup_super(nx.qual, nx.qual, "_evaluate__").cls.name == "Union", "Next._evaluate__#union-base", site(h), "", "both sides are always evaluated", "also-if does not evaluate both sides")
     return r
+
+
+def _selection_table(prog: Program, f):
+    """decision table of the result loop of a selector: for every consistent valuation of the tests in the loop body, which operands'
+    conclusions are handed to update_conclusion (in order)"""
+    from ..dtable import explore_block, Sym
+
+    loops = [n for n in walk_local(f.node) if isinstance(n, ast.For) and isinstance(n.target, ast.Name)]
+    if len(loops) != 1:
+        raise AnalysisError(f"RULE-SELECT: {f.short} no longer has a single loop over its base results")
+    lp = loops[0]
+    env = {p: Sym(p) for p in f.params}
+    env[lp.target.id] = Sym(lp.target.id)
+    out = []
+    for val, outcome, calls in explore_block(prog, f, lp.body, env, inline=lambda q: False):
+        picked = []
+        for c in calls:
+            if c.fn.endswith("update_conclusion") and len(c.args) == 2:
+                a = repr(c.args[1])
+                picked.append("left" if a == "self.left._conclusion_" else ("right" if a == "self.right._conclusion_" else a))
+        out.append((val, picked))
+    return out
 
 
 def _dedup_key(prog: Program, r: RuleResult):
